@@ -110,8 +110,9 @@ theorem c19_race_free (prog : List (List AEv)) (hprog : C19Program Gen.Access.fa
     ∀ s, Reach prog s → ¬ Race s :=
   facts_race_free _ reader_discipline_holds globals_init_only_holds prog hprog
 
-/-- The four mutex-guarded tables (namespace cache, entry cache, typedef dictionary: reads and
-writes; identity dictionary: see `guards` in allow.json) are covered wherever they are touched. -/
+/-- The mutex-guarded tables declared in allow.json (namespace cache, entry cache and the set of
+nodes under conversion, typedef dictionary: reads and writes; identity dictionary: writes only,
+which this theorem therefore does not cover) are race free wherever they are touched. -/
 theorem c19_guarded_race_free (prog : List (List AEv)) (hprog : AnyProgram Gen.Access.facts prog)
     (g : Nat × Nat × Bool) (hg : g ∈ Gen.Access.facts.guards) (hstrict : g.2.2 = true) :
     ∀ s, Reach prog s → ¬ RaceOn s (sharedInst, g.1) :=
